@@ -371,8 +371,15 @@ impl Monitor {
             }
             Pk::Publish { qos, pkid, tag, .. } => {
                 if *qos > 0 {
-                    if *pkid == 0 || *pkid > limit {
-                        self.v("pkid_out_of_range", format!("PUBLISH on the wire with packet id {pkid}, inflight limit {limit}"));
+                    // ids are bounded by the *configured* limit (the statement's wording). The
+                    // number of unacknowledged publishes is bounded by the configured limit
+                    // always, and by the negotiated one (MQTT 5 receive maximum) for requests
+                    // the event loop takes on this connection; requests carried over a
+                    // failure are replayed first, whatever the new connection negotiated.
+                    let c07 = self.is("C07");
+                    let carried = self.ledger.iter().any(|l| l.tag == *tag && l.issued_epoch < self.fail_epoch);
+                    if c07 && (*pkid == 0 || *pkid > self.limit) {
+                        self.v("pkid_out_of_range", format!("PUBLISH on the wire with packet id {pkid}, configured inflight limit {}", self.limit));
                     }
                     if self.completed_rels.contains(pkid) || self.ledger.iter().any(|l| l.stage == Stage::Released && l.pkid == *pkid && l.tag != *tag) {
                         self.reuse_during_release = true;
@@ -382,12 +389,14 @@ impl Monitor {
                             "PUBLISH (payload p{tag}) written with packet id {pkid} while publish p{} with the same id is unacknowledged on this connection",
                             b.tag
                         );
-                        self.v("pkid_collision_on_wire", d);
+                        if c07 {
+                            self.v("pkid_collision_on_wire", d);
+                        }
                     }
                     self.broker_pubs.push(BrokerPub { pkid: *pkid, tag: *tag, qos: *qos, acked: false, done: false });
                     let outstanding = self.broker_pubs.iter().filter(|b| !b.acked).count();
-                    if outstanding > limit as usize {
-                        self.v("window_exceeded", format!("{outstanding} publishes unacknowledged on the wire, limit {limit}"));
+                    if c07 && (outstanding > self.limit as usize || (!carried && outstanding > limit as usize)) {
+                        self.v("window_exceeded", format!("{outstanding} publishes unacknowledged on the wire, configured limit {}, negotiated {limit}", self.limit));
                     }
                     let mut counter = self.first_sent_counter;
                     if let Some(l) = self.ledger.iter_mut().find(|l| l.tag == *tag) {
@@ -403,8 +412,8 @@ impl Monitor {
                 }
             }
             Pk::Subscribe(id) | Pk::Unsubscribe(id) => {
-                if *id == 0 || *id > limit {
-                    self.v("pkid_out_of_range", format!("{pk:?} on the wire, inflight limit {limit}"));
+                if self.is("C07") && (*id == 0 || *id > self.limit) {
+                    self.v("pkid_out_of_range", format!("{pk:?} on the wire, configured inflight limit {}", self.limit));
                 }
                 self.check_resume_order(0);
             }
@@ -809,6 +818,9 @@ impl Monitor {
     }
     pub fn errors(&self) -> &Vec<(String, u64)> {
         &self.errors
+    }
+    pub fn connections(&self) -> u32 {
+        self.conn
     }
     pub fn healthy(&self) -> bool {
         self.healthy
